@@ -101,7 +101,8 @@ theorem number_exact_of_parse_r (r stp : Nat) (hr2 : 2 ≤ r) (hstp : 1 ≤ stp)
     (isPartial : Bool) (o : POpts) (hdp : charToDigit o.dp r = none) (b : Bytes) (neg fv : Bool)
     (hn : NoSep c b.slc) (h256 : ∀ x ∈ b.slc, x < 256) (hlen : b.slc.length < 2 ^ 60) (n : Number) (cnt : Nat)
     (h : parseNumber c isPartial o b neg fv = .ok (n, cnt)) (hmany : n.manyDigits = false) :
-    NumberExactAt c n ∧ PlainSlices c n ∧ (sigBytes n.integer n.fraction).length ≤ stp := by
+    NumberExactAt c n ∧ PlainSlices c n ∧ (sigBytes n.integer n.fraction).length ≤ stp ∧
+    (-(5 * (b.slc.length : Int)) - 2 ^ 40 ≤ n.exponent ∧ n.exponent ≤ 2 ^ 40) := by
   obtain ⟨F1, F2, F3, F4, F5, F6, F7⟩ := parseNumber_facts_s c hS hpre hre isPartial o b neg fv hn n cnt h hmany
   simp only [hsc] at F4
   rw [hr] at F1 F3 F4 F7
@@ -218,7 +219,26 @@ theorem number_exact_of_parse_r (r stp : Nat) (hr2 : 2 ≤ r) (hstp : 1 ≤ stp)
     · intro fr hfr; rw [hr, hfrsome fr hfr]; exact hvalF
     · intro x hx; rw [F1] at hx; exact hmemrest x (List.mem_of_mem_take hx)
     · intro fr hfr x hx; rw [hfrsome fr hfr] at hx; exact hmemF x hx
-  refine ⟨?_, hps, hsig⟩
+  have hbound : -(5 * (s.length : Int)) - 2 ^ 40 ≤ n.exponent ∧ n.exponent ≤ 2 ^ 40 := by
+    have hnFle : dsF.length ≤ s.length := by
+      rw [← hnF, ← hfrac]
+      cases hfr : n.fraction with
+      | none => simp
+      | some fr =>
+        have := hfrsome fr hfr
+        simp only [Option.getD_some]
+        by_cases hpt : (s[b.index + dsI.length]? == some o.dp) = true
+        · simp only [hpt, if_true] at F2
+          rw [hfr] at F2; injection F2 with F2
+          rw [F2, List.length_take, List.length_drop]; omega
+        · simp only [hpt, Bool.false_eq_true, if_false] at F2
+          rw [hfr] at F2; cases F2
+    have hTb : dsF.length * k ≤ dsF.length * 5 := Nat.mul_le_mul_left _ hk5
+    have hTc : (dsF.length : Int) * (k : Int) = ((dsF.length * k : Nat) : Int) := by push_cast; rfl
+    rcases hexp with he | ⟨_, he⟩
+    · rw [he, Int.neg_mul, hTc]; constructor <;> omega
+    · rw [he]; constructor <;> omega
+  refine ⟨?_, hps, hsig, hbound⟩
   -- NumberExactAt
   obtain ⟨z, hz⟩ := sig_decomp n.integer n.fraction
   have hvs : ValidDigits r (sigBytes n.integer n.fraction) := by
@@ -558,7 +578,7 @@ theorem number_truncated_of_parse_r (r stp : Nat) (hr2 : 2 ≤ r) (hstp : 1 ≤ 
     r ^ (stp - 1) ≤ n.mantissa ∧ n.mantissa < r ^ stp ∧
     n.exponent = (((sigBytes n.integer n.fraction).length : Int) - stp - ((n.fraction.getD []).length : Int)) * k + n.explicitExp ∧
     -(2 ^ 40 : Int) ≤ n.explicitExp ∧ n.explicitExp ≤ 2 ^ 40 ∧
-    n.integer.length < 2 ^ 60 ∧ (n.fraction.getD []).length < 2 ^ 60 := by
+    n.integer.length ≤ b.slc.length ∧ (n.fraction.getD []).length ≤ b.slc.length := by
   obtain ⟨ip, fp, ht, hstart, hnI, hids, hnF, hfrac, _, _⟩ := parseNumber_split c hS hpre isPartial o b neg fv hn n cnt h
   obtain ⟨explicit, ex0, endIdx, x2, x3, hpos, hmc⟩ := tailOf_many c hS hre isPartial o neg ip fp
     (by rw [hstart]; exact hn) (by rw [hids]; exact (hn.drop _).take _)
@@ -703,9 +723,9 @@ theorem number_truncated_of_parse_r (r stp : Nat) (hr2 : 2 ≤ r) (hstp : 1 ≤ 
     have := ofDigits_take_pos_r r hr2 hsg h48 hc0 stp (by omega)
     rw [htlen] at this
     exact this
-  have hl1 : (rest.take dsI.length).length < 2 ^ 60 := by
+  have hl1 : (rest.take dsI.length).length ≤ s.length := by
     rw [List.length_take, ← hrest, List.length_drop]; omega
-  have hl2 : (frac.getD []).length < 2 ^ 60 := by
+  have hl2 : (frac.getD []).length ≤ s.length := by
     rw [← hfr, m2]
     split
     · simp only [Option.getD_some, List.length_take, List.length_drop]; omega
@@ -721,11 +741,14 @@ theorem number_exact_of_syntax_r (r stp : Nat) (hr2 : 2 ≤ r) (hstp : 1 ≤ stp
     (o : POpts) (hdp : charToDigit o.dp r = none) (isPartial : Bool) (s : List Nat) (fv : Bool)
     (h256 : ∀ x ∈ s, x < 256) (hlen : s.length < 2 ^ 60) (n : Number) (cnt : Nat)
     (hp : parseFloatSyntax c o isPartial s fv = .ok (.number n cnt)) (hmany : n.manyDigits = false) :
-    NumberExactAt c n ∧ PlainSlices c n ∧ (sigBytes n.integer n.fraction).length ≤ stp := by
+    NumberExactAt c n ∧ PlainSlices c n ∧ (sigBytes n.integer n.fraction).length ≤ stp ∧
+    (-(5 * (s.length : Int)) - 2 ^ 40 ≤ n.exponent ∧ n.exponent ≤ 2 ^ 40) := by
   obtain ⟨hS, hpre, hsep, hre⟩ := relClass_of_r c hd hclass hr8
   obtain ⟨p, b, neg, cnt', hslc, hpn⟩ := syntax_to_parse_r c hd hclass hr8 o isPartial s fv n cnt hp
-  exact number_exact_of_parse_r r stp hr2 hstp hfit c hstep hS hpre hr bs k hk5 hrk hb hsc hre p o hdp b neg fv (noSep_of_sep_zero c hsep _)
+  have hres := number_exact_of_parse_r r stp hr2 hstp hfit c hstep hS hpre hr bs k hk5 hrk hb hsc hre p o hdp b neg fv (noSep_of_sep_zero c hsep _)
     (by rw [hslc]; exact h256) (by rw [hslc]; exact hlen) n cnt' hpn hmany
+  rw [hslc] at hres
+  exact hres
 
 /-- the truncated counterpart: see `number_truncated_of_parse_r` -/
 theorem number_truncated_of_syntax_r (r stp : Nat) (hr2 : 2 ≤ r) (hstp : 1 ≤ stp) (hfit : r ^ stp ≤ 2 ^ 64) (c : Cfg) (hstep : u64Step c.feats r = stp) (hr8 : c.feats.powerOfTwo = false → c.mantissaRadix ≤ 10) (hd : c.debug = false)
@@ -738,11 +761,13 @@ theorem number_truncated_of_syntax_r (r stp : Nat) (hr2 : 2 ≤ r) (hstp : 1 ≤
     r ^ (stp - 1) ≤ n.mantissa ∧ n.mantissa < r ^ stp ∧
     n.exponent = (((sigBytes n.integer n.fraction).length : Int) - stp - ((n.fraction.getD []).length : Int)) * k + n.explicitExp ∧
     -(2 ^ 40 : Int) ≤ n.explicitExp ∧ n.explicitExp ≤ 2 ^ 40 ∧
-    n.integer.length < 2 ^ 60 ∧ (n.fraction.getD []).length < 2 ^ 60 := by
+    n.integer.length ≤ s.length ∧ (n.fraction.getD []).length ≤ s.length := by
   obtain ⟨hS, hpre, hsep, hre⟩ := relClass_of_r c hd hclass hr8
   obtain ⟨p, b, neg, cnt', hslc, hpn⟩ := syntax_to_parse_r c hd hclass hr8 o isPartial s fv n cnt hp
-  exact number_truncated_of_parse_r r stp hr2 hstp hfit c hstep hS hpre hr bs k hk5 hrk hb hsc hre (by simp [Cfg.bytesContiguous, hsep]) p o hdp b neg fv
+  have hres := number_truncated_of_parse_r r stp hr2 hstp hfit c hstep hS hpre hr bs k hk5 hrk hb hsc hre (by simp [Cfg.bytesContiguous, hsep]) p o hdp b neg fv
     (noSep_of_sep_zero c hsep _) (by rw [hslc]; exact h256) (by rw [hslc]; exact hlen) n cnt' hpn hmany
+  rw [hslc] at hres
+  exact hres
 
 
 /-! ## the decimal point of valid options is not a digit of the mantissa radix -/
